@@ -194,6 +194,11 @@ def walkSides (k : Nat) : Nat → List HexCell × HexCell
 /-- `segmented.hex_ring(k)` -/
 def hexRing (k : Nat) : List HexCell := (walkSides k 6).1
 
+/-- `hex_to_rc(hex, radius, rotate)` = `(-y, x)` of `hex_to_xy`; `sqrt3 = √3`, `sqrt3h = √3/2`, `threeHalf = 3/2` -/
+def hexToRC [Add K] [Mul K] [Neg K] [IntCast K] (sqrt3 sqrt3h threeHalf : K) (h : HexCell) (radius : K) (rotate : Bool) : K × K :=
+  if rotate then (-(radius * (threeHalf * (h.2.1 : K))), radius * (sqrt3 * (h.1 : K) + sqrt3h * (h.2.1 : K)))
+  else (-(radius * (sqrt3h * (h.1 : K) + sqrt3 * (h.2.1 : K))), radius * (threeHalf * (h.1 : K)))
+
 /-- cells in the numbering of `hex_segments`: 0 = centre, then ring 1, ring 2, … -/
 def segCells : Nat → List HexCell
   | 0 => [(0, 0, 0)]
